@@ -46,6 +46,14 @@ impl BlockFormatter for BlockIndentRemover {
 
         let indent_ofs = match find_prev_line_break_pos(content, bytes, start_byte_pos, true) {
             Some(pos) => start_byte_pos - pos - 1,
+            // No line break in front: on the first line of the file the column is the position itself.
+            None if bytes
+                .iter()
+                .take(start_byte_pos)
+                .all(|b| *b == b' ' || *b == b'\t') =>
+            {
+                start_byte_pos
+            }
             None => 0,
         };
         // The body starts on the line after the seam (the seam normally sits on the line break itself).
